@@ -349,6 +349,7 @@ class InlinedFacts:
     this view (`absorbed`): what they contain is judged inside their callers."""
 
     def __init__(self, facts, depth=5, max_blocks=160, only=None):
+        self._into_coroutines = only is not None     # folding back *new* helpers: also inside async bodies
         self._f = facts
         self._depth = depth
         self._max = max_blocks
@@ -393,7 +394,7 @@ class InlinedFacts:
         if b is None:
             return None
         if name not in self._cache:
-            if b.is_coroutine or name.split("::{closure")[0] in self.absorbed:
+            if (b.is_coroutine and not self._into_coroutines) or name.split("::{closure")[0] in self.absorbed:
                 self._cache[name] = b
             else:
                 self._cache[name] = inlined(self._f, b, self._depth, self._select, self._max)
